@@ -118,6 +118,22 @@ def check(ai: int, fwd: bool) -> bool:
             raise Fuel()
         return orig(x)
     xtuml.meta.navigate_one = counting
+    # second fuel counter on the membership test of the set being sorted (a loop that never navigates still
+    # asks `inst in set`), and a wall-clock watchdog as a last resort
+    orig_contains = xtuml.QuerySet.__contains__
+
+    def counting_contains(self_, key):
+        fuel[0] += 1
+        if fuel[0] > 12 * N + 40:
+            raise Fuel()
+        return orig_contains(self_, key)
+    xtuml.QuerySet.__contains__ = counting_contains
+    import signal
+
+    def on_alarm(signum, frame):
+        raise Fuel()
+    old_handler = signal.signal(signal.SIGALRM, on_alarm)
+    signal.setitimer(signal.ITIMER_REAL, 20.0)
     try:
         # across 'succeeds': start with the member nobody precedes, continue along 'precedes'
         res = xtuml.sort_reflexive(qs, 1, 'succeeds' if fwd else 'precedes')
@@ -128,6 +144,9 @@ def check(ai: int, fwd: bool) -> bool:
         LAST_DIFF = ('does not terminate', succ, sub, fwd)
         return False
     finally:
+        signal.setitimer(signal.ITIMER_REAL, 0)
+        signal.signal(signal.SIGALRM, old_handler)
+        xtuml.QuerySet.__contains__ = orig_contains
         xtuml.meta.navigate_one = orig
     case(MODE, N, list(succ), sub, fwd)
     if not ok_type:
